@@ -17,8 +17,8 @@ using namespace tulz;
 namespace vf {
 namespace {
 
-enum K { ASSIGN = 0, ADD, SUB, MUL, DIV, PRE_INC, POST_INC, PRE_DEC, POST_DEC, APPLY_SET, APPLY_ADD, APPLY_NOOP, SUBSCRIBE, UNSUBSCRIBE, ASSIGN_SAME, ASSIGN_OTHER_TYPE, NK };
-const char *kname[] = {"=", "+=", "-=", "*=", "/=", "++x", "x++", "--x", "x--", "apply(set)", "apply(add)", "apply(no-op)", "subscribe", "unsubscribe", "=(current value)", "=(value of another type)"};
+enum K { ASSIGN = 0, ADD, SUB, MUL, DIV, PRE_INC, POST_INC, PRE_DEC, POST_DEC, APPLY_SET, APPLY_ADD, APPLY_NOOP, SUBSCRIBE, UNSUBSCRIBE, ASSIGN_SAME, ASSIGN_OTHER_TYPE, SUBSCRIBE_CLAMP, NK };
+const char *kname[] = {"=", "+=", "-=", "*=", "/=", "++x", "x++", "--x", "x--", "apply(set)", "apply(add)", "apply(no-op)", "subscribe", "unsubscribe", "=(current value)", "=(value of another type)", "subscribe(clamping subscriber)"};
 
 struct NearEq {
     double eps;
@@ -33,26 +33,62 @@ template <> bool same_bits<std::string>(const std::string &a, const std::string 
 // ObsT: for long and std::string the Observable is instantiated with its DEFAULT equality, as users write it
 template <class T, class Eq, class ObsT = Observable<T, Eq>> struct Runner {
     using Obs = ObsT;
-    struct SubRec { Subscription<T &> sub; std::vector<T> got; int flavour; bool live = true; };
+    // the handle type is whatever subscribe() returns; T& subscribers are used when the Observable accepts them (it does today)
+    using SubT = decltype(std::declval<Obs &>().subscribe([](const T &) {}));
+    static constexpr bool accepts_mutable_ref = requires(Obs &o) { o.subscribe([](T &) {}); };
+    struct SubRec { SubT sub; std::vector<T> got; int flavour; bool live = true; bool clamp = false; T bound{}; };
     std::unique_ptr<Obs> ob;
     Eq eq;
     T model;
     std::vector<std::unique_ptr<SubRec>> subs;
-    bool saw_change = false, saw_nochange = false, two_subs_both = false;
+    bool saw_change = false, saw_nochange = false, two_subs_both = false, clamp_fired = false;
 
     size_t live_count() { size_t n = 0; for (auto &s : subs) n += s->live; return n; }
 
     void add_sub(int flavour) {
         auto r = std::make_unique<SubRec>(); r->flavour = flavour % 3;
         SubRec *p = r.get();
-        if (r->flavour == 0) r->sub = ob->subscribe([p](T &v) { p->got.push_back(v); });
+        if constexpr (!accepts_mutable_ref) { if (r->flavour == 0) r->flavour = 1; }
+        if (r->flavour == 0) { if constexpr (accepts_mutable_ref) r->sub = ob->subscribe([p](T &v) { p->got.push_back(v); }); }
         else if (r->flavour == 1) r->sub = ob->subscribe([p](const T &v) { p->got.push_back(v); });
         else r->sub = ob->subscribe([p](T v) { p->got.push_back(v); });
         subs.push_back(std::move(r));
     }
 
+    // a subscriber that writes back into the Observable from its callback (a clamp): "if (bound < v) observable = bound"
+    void add_clamp(const T &bound) {
+        auto r = std::make_unique<SubRec>(); r->flavour = 3; r->clamp = true; r->bound = bound;
+        SubRec *p = r.get(); Obs *o = ob.get();
+        r->sub = ob->subscribe([p, o](const T &v) { p->got.push_back(v); if (p->bound < v) *o = p->bound; });
+        subs.push_back(std::move(r));
+    }
+
+    // a notifying op moved the value to `model`; live clamping subscribers then pull it down to the smallest bound below it.
+    // Returns true if a clamp fired (the model is updated to the final value).
+    bool settle_clamps() {
+        bool fired = false;
+        for (auto &s : subs) if (s->live && s->clamp && s->bound < model) { model = s->bound; fired = true; }
+        return fired;
+    }
+
+    // after a notifying op during which a clamp wrote back: nested rounds happened, so the counts are not fixed, but every live
+    // subscriber was notified and the LAST value each of them received is the current value() (the property's closing clause)
+    void expect_after_clamp(const char *when) {
+        for (size_t i = 0; i < subs.size(); ++i) {
+            SubRec &s = *subs[i];
+            if (!s.live) { VF_CHECK(s.got.empty(), "NOTIFY", "%s: unsubscribed subscriber %zu was notified", when, i); continue; }
+            VF_CHECK(!s.got.empty(), "NOTIFY", "%s: subscriber %zu received no notification although the value changed (value now %s)", when, i, show(model).c_str());
+            VF_CHECK(same_bits(s.got.back(), model), "NOTIFY", "%s: a subscriber wrote back into the Observable during the round; subscriber %zu last received %s but value() is %s", when, i, show(s.got.back()).c_str(), show(model).c_str());
+            s.got.clear();
+        }
+        VF_CHECK(same_bits(ob->value(), model), "VALUE", "%s: value() = %s, model %s", when, show(ob->value()).c_str(), show(model).c_str());
+        label("clamp_fired"); clamp_fired = true;
+        saw_change = true;
+    }
+
     // after an op: every live subscriber got exactly `expectN` notifications carrying the post-op value
     void expect(const char *when, bool notified) {
+        if (notified && settle_clamps()) { expect_after_clamp(when); return; }
         for (size_t i = 0; i < subs.size(); ++i) {
             SubRec &s = *subs[i];
             size_t want = (s.live && notified) ? 1 : 0;
@@ -79,7 +115,7 @@ template <class T, class Eq, class ObsT = Observable<T, Eq>> struct Runner {
             T x = operand(o.a, o.b);
             T old = model;
             bool done = true;
-            if (!isstr && too_big(model) && o.k != ASSIGN && o.k != ASSIGN_OTHER_TYPE && o.k != SUBSCRIBE && o.k != UNSUBSCRIBE && o.k != ASSIGN_SAME && o.k != APPLY_SET && o.k != APPLY_NOOP) { count_skipped(); continue; }
+            if (!isstr && too_big(model) && o.k != ASSIGN && o.k != ASSIGN_OTHER_TYPE && o.k != SUBSCRIBE && o.k != SUBSCRIBE_CLAMP && o.k != UNSUBSCRIBE && o.k != ASSIGN_SAME && o.k != APPLY_SET && o.k != APPLY_NOOP) { count_skipped(); continue; }
             switch (o.k) {
             case ASSIGN: case ASSIGN_SAME: {
                 if (o.k == ASSIGN_SAME) x = model;
@@ -101,6 +137,18 @@ template <class T, class Eq, class ObsT = Observable<T, Eq>> struct Runner {
                 if constexpr (std::is_same_v<T, long>) {
                     double d = (double)model + (((unsigned)o.b % 4) == 0 ? 0.0 : ((unsigned)o.b % 4) == 1 ? 0.75 : ((unsigned)o.b % 4) == 2 ? -0.25 : 1.5);
                     if (o.c & 1) { float f = (float)d; conv = static_cast<long>(f); *ob = f; } else { conv = static_cast<long>(d); *ob = d; }
+                } else if constexpr (std::is_same_v<T, unsigned char>) {
+                    // an int that differs from the held value by a multiple of 256 (or not): the decision is made on the converted value
+                    int iv = (int)model + (((unsigned)o.b % 4) == 0 ? 256 : ((unsigned)o.b % 4) == 1 ? -256 : ((unsigned)o.b % 4) == 2 ? 3 : 0);
+                    if (o.c & 1) { long long w = (long long)iv + 65536; conv = static_cast<unsigned char>(w); *ob = w; } else { conv = static_cast<unsigned char>(iv); *ob = iv; }
+                } else if constexpr (std::is_same_v<T, int>) {
+                    long long w = (long long)model + (((unsigned)o.b % 3) == 0 ? 4294967296LL : ((unsigned)o.b % 3) == 1 ? 0LL : 2LL);
+                    if (o.c & 1) { double d = (double)model + (((unsigned)o.b % 3) == 0 ? 0.75 : ((unsigned)o.b % 3) == 1 ? -0.5 : 1.0); conv = static_cast<int>(d); *ob = d; }
+                    else { conv = static_cast<int>(w); *ob = w; }
+                } else if constexpr (std::is_same_v<T, float>) {
+                    double d = (double)model + (((unsigned)o.b % 3) == 0 ? 1e-12 : ((unsigned)o.b % 3) == 1 ? 0.3 : 0.0);
+                    if (o.c & 1) { int iv = (std::fabs(model) < 1e6f ? (int)model : 0) + (int)((unsigned)o.b % 3) - 1; conv = static_cast<float>(iv); *ob = iv; }
+                    else { conv = static_cast<float>(d); *ob = d; }
                 } else if constexpr (std::is_same_v<T, double>) {
                     if (o.c & 1) { int iv = (std::fabs(model) < 1e6 ? (int)model : 0) + (int)((unsigned)o.b % 3) - 1; conv = static_cast<double>(iv); *ob = iv; }
                     else { float f = (float)(model + x); conv = static_cast<double>(f); *ob = f; }
@@ -126,6 +174,10 @@ template <class T, class Eq, class ObsT = Observable<T, Eq>> struct Runner {
             case APPLY_ADD: ob->apply([&](T &v) { v += x; }); model += x; expect(when, !eq(old, model)); break;
             case APPLY_NOOP: ob->apply([](T &) {}); expect(when, false); break;
             case SUBSCRIBE: if (subs.size() < 6) { add_sub(o.a); expect(when, false); saw_nochange = saw_nochange; } else done = false; break;
+            case SUBSCRIBE_CLAMP:
+                // only with the default equality (the closing clause of the property speaks of it)
+                if constexpr (std::is_same_v<Obs, Observable<T>>) { if (subs.size() < 6) { add_clamp(x); expect(when, false); } else done = false; } else done = false;
+                break;
             case UNSUBSCRIBE: {
                 if (subs.empty()) { done = false; break; }
                 SubRec &s = *subs[(size_t)((unsigned)o.a % subs.size())];
@@ -146,7 +198,7 @@ template <class T, class Eq, class ObsT = Observable<T, Eq>> struct Runner {
 } // namespace
 
 void run_c16(const Case &c) {
-    int type = (unsigned)hget(c, 0, 0) % 3;
+    int type = (unsigned)hget(c, 0, 0) % 6;
     int init = hget(c, 1, 0);
     if (type == 0) {
         label("type_long");
@@ -159,6 +211,23 @@ void run_c16(const Case &c) {
         static const double steps[] = {0.0, 1e-12, 0.004, 0.3, 1.0, 2.0, 3.5, -0.25, -1.0, 0.5};
         Runner<double, NearEq> r;
         r.run(c, (double)(init % 20 - 10) * 0.5, e, [](int a, int) { return steps[(unsigned)a % 10]; }, [](double v) { return std::fabs(v) > 1e12; });
+    } else if (type == 3) {
+        // a narrow unsigned integer with the default equality: compound operators promote to int and wrap modulo 256
+        label("type_uchar");
+        Runner<unsigned char, std::equal_to<unsigned char>, Observable<unsigned char>> r;
+        static const unsigned char vals[] = {0, 1, 2, 3, 5, 16, 100, 128, 200, 255};
+        r.run(c, (unsigned char)(init * 7), std::equal_to<unsigned char>{}, [](int a, int) { return vals[(unsigned)a % 10]; }, [](unsigned char) { return false; });
+    } else if (type == 4) {
+        label("type_float_neareq");
+        struct NearEqF { float eps; bool operator()(const float &a, const float &b) const { return std::fabs(a - b) < eps; } };
+        static const float epss[] = {1e-6f, 0.01f, 0.5f, 2.5f};
+        static const float steps[] = {0.0f, 1e-9f, 0.004f, 0.3f, 1.0f, 2.0f, 3.5f, -0.25f, -1.0f, 0.5f};
+        Runner<float, NearEqF> r;
+        r.run(c, (float)(init % 20 - 10) * 0.5f, NearEqF{epss[(unsigned)hget(c, 2, 0) % 4]}, [](int a, int) { return steps[(unsigned)a % 10]; }, [](float v) { return std::fabs(v) > 1e12f; });
+    } else if (type == 5) {
+        label("type_int");
+        Runner<int, std::equal_to<int>, Observable<int>> r;
+        r.run(c, init % 20 - 10, std::equal_to<int>{}, [](int a, int) { return a % 13 - 6; }, [](int v) { return std::abs(v) > 100000000; });
     } else {
         label("type_string");
         static const char *words[] = {"", "a", "foo", "a string that is clearly longer than the small-string buffer", "baz"};
